@@ -50,6 +50,12 @@ func cmdSelftest() int {
 		"^(?:[0-9]+)$", "^/([0-9]+)(/.*)?$", "^/a b/([^/]+?)(/.*)?$"}
 	seed := int64(envInt("VERIF_SEED", 1))
 	checks, bad := e.SelfTest(corpus, patterns, seed)
+	subPatterns := []string{"^/t/([^/]+?)(/.*)?$", "^/a/([^/]+?)/b(/.*)?$", "^(/.*)?$", "^/t/(.*)(/.*)?$", "^/([0-9]+)(/.*)?$", "^/a b/([^/]+?)(/.*)?$",
+		"^/t(/.*)?$", "^/([^/]+?)/([^/]+?)(/.*)?$", "^/t/([0-9]*)(/.*)?$", ":([A-Za-z]+)$", "^/a/(.*)$", "^/t/x([^/]+?)y(/.*)?$"}
+	c2, bad2 := e.SelfTestSubmatch(corpus, subPatterns, seed, 300)
+	checks += c2
+	fmt.Printf("selftest: %d submatch comparisons (FindStringSubmatch/FindStringSubmatchIndex, boundaries from the solver)\n", c2)
+	bad = append(bad, bad2...)
 	for _, b := range bad {
 		fmt.Println("SELFTEST-MISMATCH:", b)
 	}
